@@ -29,6 +29,9 @@ inline ProblemSpec random_problem(Rng& rng, double Rmax, bool allow_culham = tru
     return s;
 }
 
+// opt-in for operator-level drivers: in a share of the cases the geometry is the mirror image (det DF < 0)
+inline void maybe_mirror(Rng& rng, ProblemSpec& s, double p = 0.15) { s.mirror = rng.coin(p); }
+
 // hierarchy of levels built like GMGPolar::setup(): level 0 from a fresh cache, coarser ones from the finer level.
 struct Hierarchy {
     std::vector<std::unique_ptr<Level>> levels;
